@@ -70,6 +70,8 @@ def own_library(name, lang, wraps, options=None, fmt=None, namespace=None, patte
     # buffers the wrapper itself allocates for an intent(out) array whose extents are expressions
     fs += [F("aout2", "void", [P("n", "val", "int", role="count"), P("m", "val", "int", role="count"), P("a", "arr_out", "int", dims=["n+1", "m"])]),
            F("aout2d", "int", [P("n", "val", "int", role="count"), P("m", "val", "int", role="count"), P("a", "arr_out", "double", dims=["n", "m+2-1"])])]
+    # an array argument: the Python wrapper converts the sequence into a temporary buffer
+    fs += [F("tarr", "int", [P("a", "arr_in", "int", n="n"), P("n", "implied", "int", of="a")])]
     fs += [F("cres", "cstr", [P("n", "val", "int", role="outlen")]),
            F("tcstr", "int", [P("s", "cstr_in")]),
            F("tcout", "void", [P("s", "cstr_out", charlen=12)]),
@@ -185,7 +187,7 @@ def make_history(lib, r, target, n_ops):
 
     arr_fns = [f["name"] for f in lib["functions"] if f["ret"]["kind"] == "arr_ptr"]
     misc = [n for n in ("aout2", "aout2d", "sval", "sown", "scref", "vret", "vretd", "cres", "tstr", "tsval", "tsout", "tsio", "tvec", "tvout", "tvio",
-                        "tcstr", "tcout", "tcio") if n in names]
+                        "tcstr", "tcout", "tcio", "tarr") if n in names]
     if target == "c":
         misc = [n for n in misc if cdrv.c_callable(lib["functions"][fidx(lib, n)])]
         arr_fns = []
@@ -265,7 +267,15 @@ def make_history(lib, r, target, n_ops):
             if target == "fortran" and any(crv[c] is False for c in CRV):
                 choices += ["crvredel"]
         choices += ["misc"] * 2
+        if target == "python" and "tarr" in names:
+            choices += ["badcall"]
         ch = r.choice(choices)
+        if ch == "badcall":
+            # a sequence with one element that cannot be converted: the call is rejected and the buffer the wrapper
+            # had started to fill is released exactly once
+            bad = r.choice([["x", 2, 3], [1, "x", 3], [1, 2, "x"], [1, None, 3], [1, 2, 3, 4, 5, 6, "x"]])
+            add({"op": "badcall", "fn": "tarr", "bad": bad})
+            continue
         if ch == "create":
             h = r.choice(free_h)
             hows = ["new0", "new1", "make", "copy", "getptr", "pooled"] if target != "fortran" else ["new0", "new1", "make", "copy", "getptr"]
@@ -519,6 +529,8 @@ def py_ops(lib, steps):
             o = {"kind": "del", "obj": s["h"]}
         elif op == "arr":
             o = {"kind": "call", "name": s["fn"], "pos": [s["seed"]]}
+        elif op == "badcall":
+            o = {"kind": "call", "name": s["fn"], "pos": [[({"special": "none"} if x is None else x) for x in s["bad"]]]}
         elif op == "misc":
             f = lib["functions"][fidx(lib, s["fn"])]
             o = {"kind": "call", "name": s["fn"], "pos": [c03.enc(s["args"][p["name"]]) for p in f["params"] if p["name"] in s["args"]]}
@@ -616,6 +628,10 @@ def judge(lib, steps, trace, marks, blocks, outs, conv, res, target):
         elif op in ("release", "alias", "forget", "crvdel"):
             if rcv:
                 V.append({"mech": "library-entered-during:%s" % what, "detail": "%s [%s] step %d: %r" % (name, target, k, rcv)})
+        elif op == "badcall":
+            got_ = outs.get(k)
+            if rcv or not (isinstance(got_, dict) and got_.get("exc") in ("TypeError", "ValueError")):
+                V.append({"mech": "unconvertible-sequence-element-not-rejected", "detail": "%s [%s] step %d %r: outcome %r, library records %r" % (name, target, k, s["bad"], got_, rcv)})
         # --- quiescent point after the step
         # a difference is reported at the step that introduces it; the drift is carried so that later steps are
         # still judged on their own
